@@ -13,6 +13,7 @@ import (
 	"github.com/0chain/common/core/logging"
 	"go.uber.org/zap"
 	"go.uber.org/zap/zapcore"
+	"go.uber.org/zap/zaptest/observer"
 
 	"verif/harness/internal/fw"
 )
@@ -113,12 +114,43 @@ func c20sequential(c *fw.Ctx) {
 		names = append(names, fmt.Sprintf("d%d(from %s at write %d)", len(loggers)-1, names[parent], i))
 		events = append(events, fmt.Sprintf("@%d derive %s", i, names[len(names)-1]))
 	}
+	// a snapshot handed out earlier stays what it was, whatever is written and read afterwards
+	var heldSnap []*observer.LoggedEntry
+	var heldIDs []string
 	check := func(when string) bool {
 		want := written
 		if len(want) > capacity {
 			want = want[len(want)-capacity:]
 		}
 		got := snapshotIDs(ml)
+		if heldSnap != nil {
+			if len(heldSnap) != len(heldIDs) {
+				c.Violate("", "a snapshot handed out earlier changed its length from %d to %d (%s)", len(heldIDs), len(heldSnap), when)
+				return false
+			}
+			for i, e := range heldSnap {
+				if e == nil || e.Message != heldIDs[i] {
+					m := "<nil>"
+					if e != nil {
+						m = e.Message
+					}
+					c.Violate("", "a snapshot handed out earlier changed: entry %d was %q and is now %q (%s; %d written since the buffer was created)", i, heldIDs[i], m, when, len(written))
+					return false
+				}
+			}
+			c.Count("held_snapshots_rechecked", 1)
+		}
+		if r.Intn(3) == 0 || heldSnap == nil {
+			heldSnap = ml.GetLogs()
+			heldIDs = heldIDs[:0]
+			for _, e := range heldSnap {
+				if e == nil {
+					heldIDs = append(heldIDs, "<nil>")
+				} else {
+					heldIDs = append(heldIDs, e.Message)
+				}
+			}
+		}
 		// expected snapshot: newest first
 		if len(got) != len(want) {
 			c.Violate("", "GetLogs returned %d entries, expected the most recent %d of %d written (%s); derivations: %s", len(got), len(want), len(written), when, strings.Join(events, "; "))
@@ -242,6 +274,14 @@ func c20sequential(c *fw.Ctx) {
 	}
 }
 
+// yieldingBuffer collects what is written to it and yields the processor before copying the bytes.
+type yieldingBuffer struct{ bytes.Buffer }
+
+func (y *yieldingBuffer) Write(p []byte) (int, error) {
+	runtime.Gosched()
+	return y.Buffer.Write(p)
+}
+
 func head(s []string, n int) []string {
 	if len(s) > n {
 		return s[:n]
@@ -308,11 +348,15 @@ func c20concurrent(c *fw.Ctx) {
 	var snapMu sync.Mutex
 	stop := make(chan struct{})
 	var swg sync.WaitGroup
+	nsnap := 0
 	if withSnapshots {
+		nsnap = 1 + c.Idx%4/2 // one or two concurrent dumpers
+	}
+	for si := 0; si < nsnap; si++ {
 		swg.Add(1)
-		go func() {
+		go func(si int) {
 			defer swg.Done()
-			rr := rand.New(rand.NewSource(int64(c.Idx)))
+			rr := rand.New(rand.NewSource(int64(c.Idx*7 + si)))
 			for {
 				select {
 				case <-stop:
@@ -321,9 +365,14 @@ func c20concurrent(c *fw.Ctx) {
 				}
 				var ids []string
 				if rr.Intn(3) == 0 {
-					var buf bytes.Buffer
+					var buf yieldingBuffer // a writer that gives the processor away in the middle of every Write (a slow client)
 					ml.WriteLogs(&buf, 2)
 					ids = idRe.FindAllString(buf.String(), -1)
+					if n := strings.Count(buf.String(), "\n"); n != len(ids) {
+						snapMu.Lock()
+						snapErr = fmt.Sprintf("WriteLogs printed %d lines but %d well-formed entry ids", n, len(ids))
+						snapMu.Unlock()
+					}
 				} else {
 					ids = snapshotIDs(ml)
 				}
@@ -334,7 +383,7 @@ func c20concurrent(c *fw.Ctx) {
 				}
 				runtime.Gosched()
 			}
-		}()
+		}(si)
 	}
 	close(gate)
 	wg.Wait()
@@ -444,11 +493,11 @@ func init() {
 		StallSeconds: 120,
 		Rule: "sequential histories: a root zap.Logger on MemLogger.GetCore() (half of them on an adjustable zap.AtomicLevel that is changed mid-stream: a write counts iff its level is enabled at that moment; a quarter of the reads also compare level and call fields of every entry) and 0..4 loggers derived with With(fields) from the root or from each other, created before any write, mid-stream or after the ring wrapped; writes interleaved through all loggers, each with a unique id; totals 0, 1, 2, 17, capacity-1, capacity, capacity+1, 2*capacity, 2*capacity+3, 5000 and random " +
 			"(capacity read from logging.BufferSize). After every 257th write, at the capacity boundary and at the end GetLogs() must equal exactly the last min(total, capacity) ids, newest first; WriteLogs at detail 1..3 must print the same ids in the same order. " +
-			"concurrent histories (race binary): 2..8 goroutines write unique ids through a mix of root and derived loggers (some derived mid-stream), GOMAXPROCS in {1,2,4,16}; at quiescence exactly min(total, capacity) distinct written entries, per writer a suffix of its writes in newest-first order; in half of the runs GetLogs/WriteLogs run concurrently and every snapshot must be duplicate-free, " +
+			"concurrent histories (race binary): 2..8 goroutines write unique ids through a mix of root and derived loggers (some derived mid-stream), GOMAXPROCS in {1,2,4,16}; at quiescence exactly min(total, capacity) distinct written entries, per writer a suffix of its writes in newest-first order; in half of the runs one or two goroutines call GetLogs/WriteLogs concurrently (WriteLogs into a writer that yields the processor inside every Write; printed lines = well-formed ids) and every snapshot must be duplicate-free, " +
 			"made of written ids, per-writer newest-first. Race reports are violations. non-trivial = history with at least one derived logger (sequential) / every concurrent run",
 		Cases: func(tier string) int { s, cc := c20layout(tier); return s + cc },
 		Run:   runC20,
-		Floors: map[string]int64{"sequential_histories": 4500, "histories_on_adjustable_level": 2000, "level_changes": 20000, "writes_below_the_level": 100000, "snapshots_compared_in_detail": 20000, "read_gap:capacity": 300, "read_gap:2xcapacity": 300, "read_gap:1": 200, "snapshots_compared": 10000, "derived_loggers": 5000, "histories_above_capacity": 1500, "concurrent_runs": 200, "concurrent_runs_above_capacity": 50,
+		Floors: map[string]int64{"sequential_histories": 4500, "histories_on_adjustable_level": 2000, "level_changes": 20000, "writes_below_the_level": 100000, "snapshots_compared_in_detail": 20000, "held_snapshots_rechecked": 100000, "read_gap:capacity": 300, "read_gap:2xcapacity": 300, "read_gap:1": 200, "snapshots_compared": 10000, "derived_loggers": 5000, "histories_above_capacity": 1500, "concurrent_runs": 200, "concurrent_runs_above_capacity": 50,
 			"concurrent_runs_with_snapshots": 90, "entries_written": 3000000},
 		Assumptions: []string{"capacity is read from the exported constant logging.BufferSize", "a case in which writers or GetLogs/WriteLogs do not return for 120 s (normal: milliseconds) is reported as a violation: the buffer no longer returns its entries", "race freedom = no report from the Go race detector on the interleavings that occurred"},
 	})
